@@ -5,6 +5,7 @@ package hx
 
 import (
 	"context"
+	"hash"
 	"time"
 
 	"github.com/cenkalti/backoff/v4"
@@ -154,3 +155,24 @@ func NewWorldFor(c Creds, strict bool) *World {
 	c.Install(w.BMC)
 	return w
 }
+
+// IntegHash returns a hash.Hash computing the per-packet AuthCode of a reference
+// integrity algorithm under k1 (nil for none).
+func IntegHash(integ uint8, k1 []byte) hash.Hash {
+	if integ == ref.IntegNone {
+		return nil
+	}
+	return &integHash{integ: integ, k1: append([]byte(nil), k1...)}
+}
+
+type integHash struct {
+	integ uint8
+	k1    []byte
+	buf   []byte
+}
+
+func (h *integHash) Write(p []byte) (int, error) { h.buf = append(h.buf, p...); return len(p), nil }
+func (h *integHash) Sum(b []byte) []byte         { return append(b, ref.IntegSum(h.integ, h.k1, h.buf)...) }
+func (h *integHash) Reset()                      { h.buf = h.buf[:0] }
+func (h *integHash) Size() int                   { return ref.IntegLen(h.integ) }
+func (h *integHash) BlockSize() int              { return 64 }
